@@ -254,9 +254,213 @@ theorem C10_partial (t : TS) (hn : namesOk t = true) (h : noSetNoResult t = true
     zodShape t = shapeOfTs (tsOf [] t) := by
   rw [C10_declaration_is_denotation t hn, shapes_agree t h]
 
+/-! ## the schema side is the text of `render_type` -/
+mutual
+/-- canonical text of a schema expression -/
+def printZ : ZE → Str
+  | .call path _ args => joinWith ['.'] path ++ ['('] ++ joinWith sComma (printZs args) ++ [')']
+  | .ref n => n
+  | .arr es => ['['] ++ joinWith sComma (printZs es) ++ [']']
+  | .objErr => cl!"{ error: z.string() }"
+  | .other => []
+  | .method recv m args => printZ recv ++ ['.'] ++ m ++ ['('] ++ joinWith sComma (printZs args) ++ [')']
+def printZs : ZEs → List Str
+  | .nil => []
+  | .cons e es => printZ e :: printZs es
+end
+
+def zPrim (p : Str) (isKey : Bool) : ZE :=
+  if p = cl!"string" then .call [cl!"z", cl!"string"] none .nil
+  else if p = cl!"number" then (if isKey then .call [cl!"z", cl!"number"] none .nil else .call [cl!"z", cl!"coerce", cl!"number"] none .nil)
+  else if p = cl!"boolean" then .call [cl!"z", cl!"coerce", cl!"boolean"] none .nil
+  else .call [cl!"z", cl!"void"] none .nil
+
+mutual
+/-- the expression `ZodSchemaBuilder::render_type` builds (no validator, no mapping table) -/
+def zodAst : TS → Bool → ZE
+  | .optional t, k => .method (zodAst t k) cl!"optional" .nil
+  | .prim p, k => zPrim p k
+  | .array t, _ => .call [cl!"z", cl!"array"] none (.cons (zodAst t false) .nil)
+  | .map k v, _ => .call [cl!"z", cl!"record"] none (.cons (zodAst k true) (.cons (zodAst v false) .nil))
+  | .set t, _ => .call [cl!"z", cl!"set"] none (.cons (zodAst t false) .nil)
+  | .tuple ts, _ =>
+    match ts with
+    | .nil => .call [cl!"z", cl!"void"] none .nil
+    | .cons t r => .call [cl!"z", cl!"tuple"] none (.cons (.arr (.cons (zodAst t false) (zodAsts r))) .nil)
+  | .result t, _ => .call [cl!"z", cl!"union"] none
+      (.cons (.arr (.cons (zodAst t false) (.cons (.call [cl!"z", cl!"object"] none (.cons .objErr .nil)) .nil))) .nil)
+  | .custom n, _ => .ref (n ++ cl!"Schema")
+def zodAsts : TSList → ZEs
+  | .nil => .nil
+  | .cons t ts => .cons (zodAst t false) (zodAsts ts)
+end
+
+theorem renderPrimitive_none (p : Str) (skip k : Bool) (h : (primShape p).isSome = true) (hu : p ≠ cl!"unknown") :
+    renderPrimitive p none skip k = printZ (zPrim p k) := by
+  unfold primShape at h
+  by_cases h1 : p = cl!"string"
+  · subst h1; cases skip <;> cases k <;> decide +kernel
+  · by_cases h2 : p = cl!"number"
+    · subst h2; cases skip <;> cases k <;> decide +kernel
+    · by_cases h3 : p = cl!"boolean"
+      · subst h3; cases skip <;> cases k <;> decide +kernel
+      · by_cases h4 : p = cl!"void"
+        · subst h4; cases skip <;> cases k <;> decide +kernel
+        · simp [h1, h2, h3, h4, hu] at h
+
+theorem applyLength_none (s : Str) (skip : Bool) : applyLength s none skip = s := by
+  unfold applyLength; cases skip <;> simp
+
+mutual
+def noUnknown : TS → Bool
+  | .prim p => p ≠ cl!"unknown"
+  | .custom _ => true
+  | .array t | .set t | .optional t | .result t => noUnknown t
+  | .map k v => noUnknown k && noUnknown v
+  | .tuple ts => noUnknownL ts
+def noUnknownL : TSList → Bool
+  | .nil => true
+  | .cons t ts => noUnknown t && noUnknownL ts
+end
+
+theorem lookup_nil (n : Str) : lookup [] n = none := rfl
+
+mutual
+theorem render_eq_print : ∀ (t : TS) (skip k : Bool), namesOk t = true → noUnknown t = true →
+    renderType [] none t skip k = printZ (zodAst t k)
+  | .optional t, skip, k, h, hu => by
+    simp only [renderType, zodAst, printZ, printZs, joinWith]
+    rw [render_eq_print t false k (by simpa [namesOk] using h) (by simpa [noUnknown] using hu)]
+    simp
+  | .prim p, skip, k, h, hu => by
+    simp only [renderType, zodAst]
+    exact renderPrimitive_none p skip k (by simpa [namesOk] using h) (by simpa [noUnknown] using hu)
+  | .array t, skip, k, h, hu => by
+    simp only [renderType, zodAst, printZ, printZs, joinWith, applyLength_none]
+    rw [render_eq_print t true false (by simpa [namesOk] using h) (by simpa [noUnknown] using hu)]
+    simp
+  | .set t, skip, k, h, hu => by
+    simp only [renderType, zodAst, printZ, printZs, joinWith]
+    rw [render_eq_print t true false (by simpa [namesOk] using h) (by simpa [noUnknown] using hu)]
+    simp
+  | .map a b, skip, k, h, hu => by
+    have h' : namesOk a = true ∧ namesOk b = true := by simpa [namesOk] using h
+    have hu' : noUnknown a = true ∧ noUnknown b = true := by simpa [noUnknown] using hu
+    simp only [renderType, zodAst, printZ, printZs, joinWith]
+    rw [render_eq_print a true true h'.1 hu'.1, render_eq_print b true false h'.2 hu'.2]
+    simp [sComma]
+  | .tuple .nil, _, _, _, _ => by simp only [renderType, zodAst, printZ, printZs, joinWith]; decide +kernel
+  | .tuple (.cons t r), skip, k, h, hu => by
+    have h' : namesOk t = true ∧ namesOkL r = true := by simpa [namesOk, namesOkL] using h
+    have hu' : noUnknown t = true ∧ noUnknownL r = true := by simpa [noUnknown, noUnknownL] using hu
+    simp only [renderType, zodAst, printZ, printZs]
+    rw [render_eq_print t true false h'.1 hu'.1, renders_eq_prints r h'.2 hu'.2]
+    simp [joinWith]
+  | .result t, skip, k, h, hu => by
+    simp only [renderType, zodAst, printZ, printZs, joinWith]
+    rw [render_eq_print t true false (by simpa [namesOk] using h) (by simpa [noUnknown] using hu)]
+    simp [sComma]
+  | .custom n, _, _, _, _ => by
+    simp only [renderType, zodCustom, lookup_nil, zodAst, printZ]
+theorem renders_eq_prints : ∀ (ts : TSList), namesOkL ts = true → noUnknownL ts = true →
+    renderTypeList [] none ts = printZs (zodAsts ts)
+  | .nil, _, _ => rfl
+  | .cons t r, h, hu => by
+    have h' : namesOk t = true ∧ namesOkL r = true := by simpa [namesOkL] using h
+    have hu' : noUnknown t = true ∧ noUnknownL r = true := by simpa [noUnknownL] using hu
+    simp only [renderTypeList, zodAsts, printZs, render_eq_print t true false h'.1 hu'.1, renders_eq_prints r h'.2 hu'.2]
+end
+
+theorem stripSchema_append (n : Str) : stripSchema (n ++ cl!"Schema") = n := by
+  have h : A.startsWith (n ++ cl!"Schema").reverse cl!"amehcS" = true := by
+    rw [List.reverse_append]
+    exact A.startsWith_append _ _
+  unfold stripSchema
+  rw [if_pos h]
+  simp
+
+theorem shape_zPrim (p : Str) (k : Bool) (h : (primShape p).isSome = true) (hu : p ≠ cl!"unknown") :
+    shapeOfZ (zPrim p k) = (primShape p).getD .unknown := by
+  unfold primShape at h
+  by_cases h1 : p = cl!"string"
+  · subst h1; cases k <;> decide +kernel
+  · by_cases h2 : p = cl!"number"
+    · subst h2; cases k <;> decide +kernel
+    · by_cases h3 : p = cl!"boolean"
+      · subst h3; cases k <;> decide +kernel
+      · by_cases h4 : p = cl!"void"
+        · subst h4; cases k <;> decide +kernel
+        · simp [h1, h2, h3, h4, hu] at h
+
+theorem sh_optional (e : ZE) : shapeOfZ (.method e cl!"optional" .nil) = mkOmit (shapeOfZ e) := by
+  rw [shapeOfZ]; simp
+theorem sh_array (e : ZE) : shapeOfZ (.call [cl!"z", cl!"array"] none (.cons e .nil)) = .arr (shapeOfZ e) := by
+  rw [shapeOfZ]; simp
+theorem sh_set (e : ZE) : shapeOfZ (.call [cl!"z", cl!"set"] none (.cons e .nil)) = .set (shapeOfZ e) := by
+  rw [shapeOfZ]; simp
+theorem sh_record (a b : ZE) : shapeOfZ (.call [cl!"z", cl!"record"] none (.cons a (.cons b .nil))) = .record (shapeOfZ a) (shapeOfZ b) := by
+  rw [shapeOfZ]; simp
+theorem sh_tuple (es : ZEs) : shapeOfZ (.call [cl!"z", cl!"tuple"] none (.cons (.arr es) .nil)) = .tup (shapesOfZ es) := by
+  rw [shapeOfZ]; simp
+theorem sh_union (es : ZEs) : shapeOfZ (.call [cl!"z", cl!"union"] none (.cons (.arr es) .nil)) = .alt (shapesOfZ es) := by
+  rw [shapeOfZ]; simp
+theorem sh_errobj : shapeOfZ (.call [cl!"z", cl!"object"] none (.cons .objErr .nil)) = .errObj := by decide +kernel
+theorem sh_void : shapeOfZ (.call [cl!"z", cl!"void"] none .nil) = .void := by decide +kernel
+theorem sh_ref (n : Str) : shapeOfZ (.ref n) = .ref (stripSchema n) := by rw [shapeOfZ]
+
+mutual
+theorem shape_zodAst : ∀ (t : TS) (k : Bool), namesOk t = true → noUnknown t = true → shapeOfZ (zodAst t k) = zodShape t
+  | .optional t, k, h, hu => by
+    simp only [zodAst, zodShape, sh_optional, shape_zodAst t k (by simpa [namesOk] using h) (by simpa [noUnknown] using hu)]
+  | .prim p, k, h, hu => by
+    simp only [zodAst, zodShape]
+    exact shape_zPrim p k (by simpa [namesOk] using h) (by simpa [noUnknown] using hu)
+  | .array t, _, h, hu => by
+    simp only [zodAst, zodShape, sh_array, shape_zodAst t false (by simpa [namesOk] using h) (by simpa [noUnknown] using hu)]
+  | .set t, _, h, hu => by
+    simp only [zodAst, zodShape, sh_set, shape_zodAst t false (by simpa [namesOk] using h) (by simpa [noUnknown] using hu)]
+  | .map a b, _, h, hu => by
+    have h' : namesOk a = true ∧ namesOk b = true := by simpa [namesOk] using h
+    have hu' : noUnknown a = true ∧ noUnknown b = true := by simpa [noUnknown] using hu
+    simp only [zodAst, zodShape, sh_record, shape_zodAst a true h'.1 hu'.1, shape_zodAst b false h'.2 hu'.2]
+  | .tuple .nil, _, _, _ => by simp only [zodAst, zodShape, sh_void]
+  | .tuple (.cons t r), _, h, hu => by
+    have h' : namesOk t = true ∧ namesOkL r = true := by simpa [namesOk, namesOkL] using h
+    have hu' : noUnknown t = true ∧ noUnknownL r = true := by simpa [noUnknown, noUnknownL] using hu
+    simp only [zodAst, zodShape, sh_tuple, shapesOfZ, shape_zodAst t false h'.1 hu'.1, shape_zodAsts r h'.2 hu'.2]
+  | .result t, _, h, hu => by
+    simp only [zodAst, zodShape, sh_union, shapesOfZ, sh_errobj,
+      shape_zodAst t false (by simpa [namesOk] using h) (by simpa [noUnknown] using hu)]
+  | .custom n, _, _, _ => by
+    simp only [zodAst, zodShape, sh_ref, stripSchema_append]
+theorem shape_zodAsts : ∀ (ts : TSList), namesOkL ts = true → noUnknownL ts = true → shapesOfZ (zodAsts ts) = zodShapes ts
+  | .nil, _, _ => rfl
+  | .cons t r, h, hu => by
+    have h' : namesOk t = true ∧ namesOkL r = true := by simpa [namesOkL] using h
+    have hu' : noUnknown t = true ∧ noUnknownL r = true := by simpa [noUnknownL] using hu
+    simp only [zodAsts, shapesOfZ, zodShapes, shape_zodAst t false h'.1 hu'.1, shape_zodAsts r h'.2 hu'.2]
+end
+
+/-- **C10, schema side**: the text `render_type` emits (no validator, no mapping table) is the canonical print of an
+    expression whose shape is `zodShape` — the analogue of `C05_L2_render` + `C10_declaration_is_denotation` -/
+theorem C10_schema_is_render (t : TS) (skip k : Bool) (h : namesOk t = true) (hu : noUnknown t = true) :
+    renderType [] none t skip k = printZ (zodAst t k) ∧ shapeOfZ (zodAst t k) = zodShape t :=
+  ⟨render_eq_print t skip k h hu, shape_zodAst t k h hu⟩
+
+/-- **C10 (partial), both sides tied to the rendered texts**: for every type structure with well-formed names, no set
+    and no Result, the parameter / field schema text is the print of an expression, the declaration text is the print
+    of a type (C05), and the two have the same shape. -/
+theorem C10_texts_same_shape_partial (t : TS) (skip k : Bool) (h : namesOk t = true) (hu : noUnknown t = true)
+    (hs : noSetNoResult t = true) (hp : precSafe t = true) :
+    renderType [] none t skip k = printZ (zodAst t k) ∧ visitTs [] t = printSpec (tsOf [] t) ∧
+    shapeOfZ (zodAst t k) = shapeOfTs (tsOf [] t) :=
+  ⟨render_eq_print t skip k h hu, visit_eq_print [] t hp,
+   by rw [shape_zodAst t k h hu, C10_declaration_is_denotation t h, shapes_agree t hs]⟩
+
+
 /-! non-vacuity: a nested type meeting the hypotheses, with its two texts parsed to the same shape -/
 def exT : TS := .map (.prim cl!"string") (.array (.tuple (.cons (.custom cl!"User") (.cons (.optional (.prim cl!"number")) .nil))))
-example : noSetNoResult exT = true ∧ noSet exT = true ∧ namesOk exT = true := by decide +kernel
+example : noSetNoResult exT = true ∧ noSet exT = true ∧ namesOk exT = true ∧ noUnknown exT = true ∧ precSafe exT = true := by decide +kernel
 theorem C10_example_texts :
     (parseZod (buildSchema [] exT none)).map shapeOfZ = some (zodShape exT) ∧
     (parseTsTy (visitTs [] exT)).map shapeOfTs = some (tsShape exT) ∧
